@@ -9,7 +9,7 @@ A forwarding comparator (calls another comparator on rebuilt pairs) is accepted 
 from vfacts import strip, walk, method_name
 
 RULE = 'ORDTOTAL'
-FLOOR = 3
+FLOOR = 2
 
 
 def mentions(n, params, field):
